@@ -163,6 +163,30 @@ func runDec(entry string, inp []byte, big int, bm string, proj bool) Dec {
 	return e
 }
 
+// prev is the message of an earlier case.  Between producing a result and reading it the driver makes an
+// unrelated library call on prev (the caller of a pure function may do anything in between): a result that
+// aliases library-owned memory (pooled or cached buffers) is then observed changed.
+var prev *nas.Message
+var interleaving = true // off in the parallel mode: prev is deliberately not shared between goroutines
+
+func interleave() {
+	if !interleaving || prev == nil {
+		return
+	}
+	ev.Guard(func() {
+		if out, err := prev.PlainNasEncode(); err == nil {
+			m := nas.NewMessage()
+			_ = m.PlainNasDecode(&out)
+		}
+	})
+}
+
+func remember(m *nas.Message) {
+	if interleaving && m != nil && (m.GmmMessage != nil || m.GsmMessage != nil) {
+		prev = m
+	}
+}
+
 type RT struct {
 	Op    string    `json:"op"`
 	M     string    `json:"m"`
@@ -202,7 +226,11 @@ func runRT(c Case) RT {
 	if !e.EncOk {
 		return e
 	}
+	interleave()
 	e.Bytes = ev.Ints(out)
+	if c.Via != "body" {
+		defer remember(m)
+	}
 	pi = ev.Guard(func() {
 		if c.Via == "body" {
 			p, derr, perr := rm.DecodeBody(c.M, append([]byte{}, out...))
@@ -256,7 +284,9 @@ func runRe(inp []byte) Re {
 		if err != nil {
 			return
 		}
+		interleave()
 		e.E1Ok, e.E1 = true, ev.Ints(e1)
+		defer remember(m)
 		m2 := nas.NewMessage()
 		cp2 := append([]byte{}, e1...)
 		if err := m2.PlainNasDecode(&cp2); err != nil {
@@ -267,6 +297,7 @@ func runRe(inp []byte) Re {
 		if err != nil {
 			return
 		}
+		interleave()
 		e.E2Ok, e.E2 = true, ev.Ints(e2)
 	})
 	if pi != nil {
@@ -308,10 +339,12 @@ func runPureD(entry string, inp []byte) PureD {
 			rm.ScribbleMessage(m)
 		}
 		e.InpScr = ev.Ints(cp)
+		interleave()
 		m2 := nas.NewMessage()
 		cp2 := append([]byte{}, inp...)
 		if err2 := decodeEntry(m2, entry, &cp2); err2 == nil {
 			e.DTwice = rm.Project(m2)
+			remember(m2)
 		}
 	})
 	if pi != nil {
@@ -333,12 +366,13 @@ type PureE struct {
 	Tail   []int     `json:"tail"`   // what encoding appended
 	After  rm.Proj   `json:"after"`  // message projection after encoding
 	Again  []int     `json:"again"`  // a second encoding into a fresh buffer
+	Held   []int     `json:"held"`   // the first PlainNasEncode result, read again after a DIFFERENT message was encoded
 }
 
 func pat(i int) byte { return byte((i*37 + 11) % 256) }
 
 func runPureE(c Case) PureE {
-	e := PureE{Op: "PureE", M: c.M, Mand: c.Mand, Opt: c.Opt, Pre: c.Pre, Prefix: []int{}, Tail: []int{}, Again: []int{}, After: rm.EmptyProj()}
+	e := PureE{Op: "PureE", M: c.M, Mand: c.Mand, Opt: c.Opt, Pre: c.Pre, Prefix: []int{}, Tail: []int{}, Again: []int{}, Held: []int{}, After: rm.EmptyProj()}
 	m, _, err := rm.Build(c.M, c.Mand, c.Opt)
 	if err != nil {
 		ev.Fatal("%v", err)
@@ -366,6 +400,13 @@ func runPureE(c Case) PureE {
 		e.After = rm.Project(m)
 		if out2, err2 := m.PlainNasEncode(); err2 == nil {
 			e.Again = ev.Ints(out2)
+			// same shape, different contents: a message built from the same case with every content octet inverted
+			if other, _, berr := rm.Build(c.M, c.Mand, c.Opt); berr == nil {
+				rm.ScribbleMessage(other)
+				_, _ = other.PlainNasEncode()
+			}
+			interleave()
+			e.Held = ev.Ints(out2)
 		}
 	})
 	if pi != nil {
@@ -492,6 +533,7 @@ type Shared struct {
 // runPar: N goroutines, each walking the whole case list from its own starting point with its own
 // writer; a few messages decoded up front are shared and only read (projected, re-encoded).
 func runPar(cases []Case, prefix string, n int, rounds int) {
+	interleaving = false
 	type sh struct {
 		inp []byte
 		m   *nas.Message
